@@ -22,7 +22,7 @@ CHECKS = {
         "level": "exploration",
         "manifest": {
             "technique": "model-based property-based testing (rapid): generated typed programs rendered with minimal parentheses, run on the real parser+interpreter and compared with an independent reference evaluator; layout metamorphosis; determinism re-runs",
-            "level_text": "Programs from a typed generator (all operators, scoping events, if/while/for/switch/match/break/continue/early return, user and recursive functions, builtins, path/query/body inputs, 6% ill-typed operands) are pretty-printed with only the parentheses the documented precedence requires, parsed and executed by the real interpreter, and the outcome (value with int/float kept apart, status, or error) must equal the reference evaluator's; a second layout of the same tree and repeated evaluations must agree. Exploration over generated programs; says nothing about constructs the generator does not emit.",
+            "level_text": "Programs from a typed generator (all operators, scoping events, if/while/for/switch/match/break/continue/early return, user and recursive functions (also as callbacks of map/filter/reduce/find/some/every), `!` commands with positional and --flag parameters run through ExecuteCommand, builtins, path/query/body inputs incl. NaN/Inf and boundary integers, empty blocks, ill-typed operands at a per-case rate) are pretty-printed with only the parentheses the documented precedence requires, parsed and executed by the real interpreter, and the outcome (value with int/float kept apart, status, or error) must equal the reference evaluator's; a second layout of the same tree and repeated evaluations must agree. Exploration over generated programs; says nothing about constructs the generator does not emit.",
             "level_note": "Trusts the reference evaluator harness/lang/eval.go (rules marked O in DESIGN.md §2.5 pin observed behaviour rather than documented behaviour) and the printer. Integer overflow, equality on arrays/objects, toString of null/containers are unspecified and discarded (counted). Lambdas/pipes have no concrete syntax and are not covered.",
         },
         "rule": ("rapid-generated programs (<=3 functions, <=2 routes, expression depth <=4, block nesting <=3, counter-bounded loops) with 1-3 requests each; "
